@@ -19,22 +19,31 @@ import gen_kinds_c09 as G
 
 ID = 'C09'
 LEVEL = 'translation_validation'
-RULE = ('programs = generated C++ cases, one per (operation, request, kind assignment, mode, build); 19 index-level operations (C01-C08 '
-        'shape / index functions incl. slice shape) and 8 views / evaluations over 35 array kinds (nested std::array, raw, fixed / hybrid / '
-        'dynamic ndarray, the 15 shape-x-buffer ndarray_t kinds in both layouts); requests: fixed sample (quick) / ~500 seeded requests '
-        '(thorough) incl. refused ones; kind assignments per request and build: the diagonal (every kind for all arguments), every pair of '
-        'argument classes constant/clipped/fixed/bounded/dynamic for the first two list arguments, seeded mixed draws, and in thorough a '
-        'sweep that covers EVERY pinned-supported kind signature at least once; builds stl-gcc, stl-clang, nostl-gcc, nostl-clang; '
-        'constexpr evaluation (`constexpr auto r = f(args)`) where every argument kind is a literal type. A case is non-trivial when '
-        'the request has >= 2 axes or is a refusal; distinct = distinct (request, kind signature, mode, build)')
+RULE = ('programs = generated C++ cases, one per (operation, request, kind assignment, mode, build); 20 index-level operations (C01-C08 '
+        'shape / index functions incl. slice and matmul shape) and 26 views / evaluations (transpose, reshape, tile, add, sum, broadcast_to, '
+        'broadcast_arrays, repeat, pad, slice, flip, expand_dims, squeeze, concatenate, where, matmul, sum with axis list / scalar / None and '
+        'ct / run-time keepdims, take; array::transpose/add/reshape/matmul/sum, eval(tile)) over 35 array kinds (nested std::array, raw, '
+        'fixed / hybrid / dynamic ndarray, the 15 shape-x-buffer ndarray_t kinds in both layouts) x constant / clipped (slack and tight '
+        'bounds) / std::array / raw / static_vector / vector / tuple kinds of the shape-like and axis-like arguments; requests: fixed sample '
+        '(quick) / ~560 fixed + seeded requests (thorough); EVERY operation that can refuse has refused requests of each class in the fixed sample '
+        '(reshape: target count a proper divisor / a multiple / coprime, -1 not dividing, two -1, zero / negative extent; broadcast_shape / '
+        'broadcast_to / add / where / broadcast_arrays: mismatch in a last / leading / middle axis, rank above the target; concatenate and '
+        'matmul shape: extent mismatch; pad: width list too short / too long; normalize_axis: out of range on either side) and every binary '
+        'request runs in both operand orders; kind assignments per request and build: the diagonal (every kind for all arguments), every '
+        'pair of argument classes constant/clipped/clipped-tight/fixed/bounded/dynamic for the first two list arguments, for views the '
+        'shape classes of the array operand (constant / fixed-rank / bounded / dynamic / clipped) x every kind of the second argument, seeded '
+        'mixed draws, and in thorough a sweep that covers EVERY pinned-supported kind signature at least once; builds stl-gcc, stl-clang, '
+        'nostl-gcc, nostl-clang; constexpr evaluation (`constexpr auto r = f(args)`) where every argument kind is a literal type. A case '
+        'is non-trivial when the request has >= 2 axes or is a refusal; distinct = distinct (request, kind signature, mode, build)')
 EXHAUSTIVE = {'quick': False, 'thorough': False}
 ANCHORS = {'Driver.C09 k9_* / k9v_* reference ops (NmVerif.KindRefs: NumPy semantics, one function per operation)':
-           'nmtools::index::* under every meta::resolve_optype branch (constant / clipped / fixed / bounded / dynamic), view::transpose/reshape/tile/add/sum, '
-           'array::transpose/add/eval over the array kinds of utility/cast.hpp and both layouts',
+           'nmtools::index::* under every meta::resolve_optype branch (constant / clipped / fixed / bounded / dynamic), view::transpose/reshape/tile/add/sum/'
+           'broadcast_to/broadcast_arrays/repeat/pad/slice/flip/expand_dims/squeeze/concatenate/where/matmul/take, '
+           'array::transpose/add/reshape/matmul/sum/eval over the array kinds of utility/cast.hpp and both layouts',
            'NmVerif.Kinds.BVec': 'utl::static_vector (utl/static_vector.hpp)', 'NmVerif.Kinds.Clipped': 'clipped_integer_t (def.hpp:55-132)'}
 MANIFEST = dict(
     text='Translation validation: every operation is instantiated under the supported combinations of argument container kinds (constant tuple, clipped, std::array, raw array, static_vector, vector, run-time tuple, fixed/hybrid 1-d ndarray, utl::array/vector, boost::array/static_vector; 35 array kinds incl. the 15 ndarray_t shape-x-buffer kinds in both layouts), in STL and NMTOOLS_DISABLE_STL builds with g++ and clang++, including constexpr evaluation, on a common request list; the normalised (has_value, shape, elements) of all of them is compared with ONE reference answer (Lean reference function written from the NumPy semantics + NumPy itself). Which combinations compile is pinned; a pinned combination that stops compiling is reported. Proof-level Lean lemmas for the container layer: a bounded vector refines a list for every operation sequence without capacity event, a clipped integer is the identity inside its range and clamps outside, and the bounded / clipped result containers chosen by the metafunctions of compute_strides / shape_transpose / broadcast_shape never overflow or clamp.',
-    note='The universally quantified part over configurations is finite and enumerated in the thorough tier (every pinned-supported signature at least once); over input values it is sampled (small extents). That the constant-index branch computes the same function (it calls the same constexpr function on to_value_v) is code structure validated by the matrix, not a theorem. Six genuine kind-dependences of the unchanged tree are listed as known findings. Not covered: maybe-wrapped argument kinds, boost small_vector, the index-map functions of C03/C04 (only their shape functions), constexpr evaluation of views.',
+    note='The universally quantified part over configurations is finite and enumerated in the thorough tier (every pinned-supported signature at least once); over input values it is sampled (small extents). That the constant-index branch computes the same function (it calls the same constexpr function on to_value_v) is code structure validated by the matrix, not a theorem. Eight genuine kind-dependences of the unchanged tree are listed as known findings (two earlier ones, the column-major clipped shape and the clipped extent 1 in broadcast_shape, were closed by fix commits 930c763 / 90a319c and are kept as regression requests). Not covered: maybe-wrapped argument kinds, boost small_vector, the index-map functions of C03/C04 (only their shape functions), constexpr evaluation of views.',
     technique='generated kind-matrix differential run against one Lean/NumPy reference + Lean 4 container refinement lemmas')
 ASSUMPTIONS = ['a kind signature that does not compile in the unchanged tree is an unsupported combination, not a violation (pinned in lib/kinds_supported_c09.json)',
                'a failure type returned for compile-time-constant arguments (meta::is_fail_v), or a compile error of a case with a constant argument, counts as the refusal `nothing`',
@@ -42,12 +51,23 @@ ASSUMPTIONS = ['a kind signature that does not compile in the unchanged tree is 
                'input values are sampled; extents are small (<= 6 per axis); negative axes are not fed to shape_repeat / shape_concatenate (refused or out of bounds in EVERY kind alike: C04/C06 material)',
                'clipped integers are given bounds with slack (value <= bound), which is the purpose of the type']
 PARTIAL = ['maybe-wrapped argument kinds (m_shape_a ...) are not in the matrix',
-           'views / evaluations: 8 operations; the second array operand of a binary operation ranges over 8 of the 35 array kinds',
+           'views / evaluations: 26 operations; the second array operand of a binary operation ranges over 8 of the 35 array kinds (4 for '
+           'concatenate, 4 x 4 for the two value operands of where); the kind universe of the 18 operations added in round 4 is two '
+           'diagonals + shape-class x second-argument pairs (~100-170 signatures per operation and build), not the full product',
+           'refused requests exist only for operations that CAN refuse: transpose / take / reductions do not validate their axes / '
+           'indices in any kind (C15 findings), so the matrix feeds them valid requests only; expand_dims, repeat, concatenate and '
+           'matmul refuse since the fix: commits fb06f17 / 812bb12 / 972adee / 7d7a8ac and have refused requests in the fixed sample',
            'constexpr evaluation is compared at index level only',
-           'index maps (tile / repeat / roll / pad / slice index functions) are covered through the views only, not kind by kind']
+           'index maps (tile / repeat / roll / pad / slice index functions) are covered through the views only, not kind by kind',
+           'reference-refusal theorems cover reshape (count mismatch, two unknowns, zero / negative extent), broadcast_shape / broadcast_to '
+           '(mismatching axis, rank), matmul (contraction), normalize_axis / repeat / expand_dims (axis out of range, count list length); the refusal of -1 with '
+           'a non-dividing count, of concatenate and of a duplicate expand_dims axis are checked by the NumPy oracle only']
 MAX_JOBS = min(6, int(os.environ.get('VERIF_JOBS', '6')))
 CASES_PER_TU = 220
-VIEW_WEIGHT = 6
+VIEW_WEIGHT = 3
+# compile weight of one case relative to an index-level case (~0.035 s): light views ~0.3 s, broadcasting / contraction views ~1 s
+OP_WEIGHT = {'v_add': 8, 'e_add': 8, 'v_where': 8, 'v_matmul': 10, 'e_matmul': 10, 'v_broadcast_arrays': 5, 'v_sum_k': 5, 'v_sum_ks': 4,
+             'e_sum_k': 4, 'v_sum': 4}
 
 
 def fmt(l):
@@ -153,18 +173,48 @@ def _gen_reshape(rng):
     mode = rng.random()
     if mode < 0.4:
         fac[rng.randrange(len(fac))] = -1
-    elif mode < 0.55:
+    elif mode < 0.5:
         fac[rng.randrange(len(fac))] += 1          # wrong element count -> refused
-    elif mode < 0.65 and len(fac) >= 2:
+    elif mode < 0.58:
+        # target count a PROPER DIVISOR of the source count (drop a factor > 1) -> refused
+        big = [k for k, f in enumerate(fac) if f > 1]
+        if big:
+            k = rng.choice(big)
+            ds = [d for d in range(1, fac[k]) if fac[k] % d == 0]
+            fac[k] = rng.choice(ds)
+    elif mode < 0.64:
+        fac[rng.randrange(len(fac))] *= rng.randint(2, 3)     # a multiple -> refused
+    elif mode < 0.70 and len(fac) >= 2:
         fac[0] = -1; fac[1] = -1                   # two -1 -> refused
+    elif mode < 0.75:
+        fac[rng.randrange(len(fac))] = rng.choice([0, -2, -3])     # zero / negative extent -> refused
     return [s, fac]
 
 
+def _reshape_oracle(v):
+    """NumPy, except that an extent 0 or a negative extent other than -1 is refused (NumPy reads every negative
+    extent as "unknown"; the library documents -1 only, array/index/reshape.hpp)"""
+    if any(d == 0 or d < -1 for d in v[1]):
+        return 'nothing'
+    return _np_shape(lambda: np.empty(v[0], dtype=np.int8).reshape(v[1]).shape)
+
+
+# refused reshape requests, one list per class (every class is in the fixed quick sample under every kind assignment)
+RESHAPE_REFUSALS = {
+    'count-divisor': [[[12], [2, 3]], [[2, 3, 2], [4]], [[3, 4], [1, 1, 1]], [[2, 3, 4], [2, 6]]],
+    'count-multiple': [[[6], [3, 4]], [[2, 3], [12]]],
+    'count-coprime': [[[6], [5]], [[2, 3], [7, 1]]],
+    'minus1-not-dividing': [[[2, 3, 2], [5, -1]]],
+    'two-minus1': [[[6], [-1, -1]], [[2, 2], [-1, -1, 4]]],
+    'zero-extent': [[[6], [0, 6]], [[6], [0, -1]]],
+    'negative-extent': [[[6], [-2, 3]], [[2, 3], [-3, -2]]],
+}
+
 REFS['shape_reshape'] = Ref(
-    lambda v: _np_shape(lambda: np.empty(v[0], dtype=np.int8).reshape(v[1]).shape),
+    _reshape_oracle,
     lambda v: 'k9_reshape shape=%s newshape=%s' % (fmt(v[0]), fmt(v[1])),
     _gen_reshape,
-    fixed=[[[2, 3, 4], [4, -1]], [[12], [3, 4]], [[2, 3, 2], [5, -1]], [[6], [-1, -1]]])
+    fixed=[[[2, 3, 4], [4, -1]], [[12], [3, 4]], [[2, 3], [3, 2]], [[2, 3, 2], [12]]] + [r for l in RESHAPE_REFUSALS.values() for r in l])
 
 
 def _gen_transpose(rng):
@@ -198,6 +248,16 @@ def _bpartner(rng, s, spoil=False):
     return t
 
 
+def _both_orders(reqs):
+    """operand order must not matter: every request also with its operands swapped"""
+    out = []
+    for v in reqs:
+        for w in (v, [v[1], v[0]] + list(v[2:])):
+            if w not in out:
+                out.append(w)
+    return out
+
+
 def _gen_bshape(rng):
     s = rshape(rng, 1, 4, emax=4)
     t = _bpartner(rng, s, spoil=rng.random() < 0.2)
@@ -208,7 +268,10 @@ REFS['broadcast_shape'] = Ref(
     lambda v: _np_shape(lambda: np.broadcast_shapes(tuple(v[0]), tuple(v[1]))),
     lambda v: 'k9_broadcast_shape shapes=%s;%s' % (fmt(v[0]), fmt(v[1])),
     _gen_bshape,
-    fixed=[[[2, 1, 4], [3, 1]], [[2, 3, 4], [2, 1]], [[1], [3, 2]], [[4], [4]]])
+    fixed=_both_orders([[[2, 1, 4], [3, 1]], [[1], [3, 2]], [[4], [4]], [[1, 3], [2, 1]], [[3, 1, 2], [1, 4, 1]], [[1, 1], [2, 3]],
+                        [[2, 1], [2, 1, 3]], [[5, 1, 1], [1, 3]],
+                        # refused: mismatch in the last / a leading / a middle axis, next to axes that stretch
+                        [[2, 3, 4], [2, 1]], [[3], [4]], [[2, 3], [3, 3]], [[2, 1, 4], [3, 5]], [[1, 3], [2, 2]], [[2, 1, 3], [3, 1, 1]]]))
 
 
 def _gen_bshape3(rng):
@@ -220,7 +283,8 @@ REFS['broadcast_shape3'] = Ref(
     lambda v: _np_shape(lambda: np.broadcast_shapes(*[tuple(x) for x in v])),
     lambda v: 'k9_broadcast_shape shapes=%s' % ';'.join(fmt(x) for x in v),
     _gen_bshape3,
-    fixed=[[[2, 1, 4], [3, 1], [1]]])
+    fixed=[[[2, 1, 4], [3, 1], [1]], [[3, 1], [1], [2, 1, 4]], [[1, 3], [2, 1], [2, 1, 1]],
+           [[2, 1, 4], [3, 1], [5]], [[2], [3, 1], [3]], [[3], [1, 3], [2, 2]]])
 
 
 def _bto_oracle(v):
@@ -246,7 +310,9 @@ REFS['shape_broadcast_to'] = Ref(
     _bto_oracle,
     lambda v: 'k9_broadcast_to ashape=%s bshape=%s' % (fmt(v[0]), fmt(v[1])),
     _gen_bto,
-    fixed=[[[3, 1], [2, 3, 4]], [[3, 2], [2, 3, 4]], [[1], [5]], [[2, 3], [2, 3]]])
+    fixed=[[[3, 1], [2, 3, 4]], [[1], [5]], [[2, 3], [2, 3]], [[1, 1], [2, 3]], [[2, 1, 1], [2, 3, 4]],
+           # refused: extent mismatch, source rank above the target rank, target axis 1 under a source axis > 1
+           [[3, 2], [2, 3, 4]], [[2, 3], [3]], [[3], [1]], [[2, 3], [2, 4]], [[2, 1, 3], [3, 3]]])
 
 
 REFS['shape_tile'] = Ref(
@@ -267,7 +333,9 @@ REFS['shape_repeat'] = Ref(
     lambda v: _np_shape(lambda: np.repeat(np.empty(v[0], dtype=np.int8), v[1], v[2]).shape),
     lambda v: 'k9_repeat shape=%s repeats=%d axis=%s' % (fmt(v[0]), v[1], 'None' if v[2] is None else str(v[2])),
     lambda rng: (lambda s: [s, rng.randint(1, 3), _gen_axis(rng, len(s), neg=False)])(rshape(rng, 1, 3, emax=4)),
-    fixed=[[[2, 3], 2, 1], [[2, 3], 2, None], [[2, 3, 2], 3, 0]])
+    fixed=[[[2, 3], 2, 1], [[2, 3], 2, None], [[2, 3, 2], 3, 0],
+           # refused (run-time axis): axis out of range
+           [[2, 3], 2, 2], [[2, 3, 2], 2, 3]])
 
 
 def _gen_repeat_l(rng):
@@ -281,7 +349,9 @@ REFS['shape_repeat_l'] = Ref(
     lambda v: _np_shape(lambda: np.repeat(np.empty(v[0], dtype=np.int8), v[1], v[2]).shape),
     lambda v: 'k9_repeat shape=%s repeats=%s rlist=1 axis=%s' % (fmt(v[0]), fmt(v[1]), 'None' if v[2] is None else str(v[2])),
     _gen_repeat_l,
-    fixed=[[[2, 3], [1, 2, 3], 1], [[2, 2], [2, 1], 0]])
+    fixed=[[[2, 3], [1, 2, 3], 1], [[2, 2], [2, 1], 0],
+           # refused (run-time axis): one count per element of the axis is required; axis out of range
+           [[2, 3], [1, 2], 1], [[2, 3], [1, 2, 3, 1], 1], [[2, 3], [1, 2, 3], 2]])
 
 
 def _rd_oracle(v):
@@ -338,7 +408,7 @@ REFS['normalize_axis'] = Ref(
     _na_oracle,
     lambda v: 'k9_normalize_axis axis=%s ndim=%d' % (fmt(v[0]), v[1]),
     _gen_na,
-    fixed=[[[-1, 0], 3], [[3, 0], 3], [[0, 1, 2], 3], [[-4], 3]])
+    fixed=[[[-1, 0], 3], [[0, 1, 2], 3], [[-3, -1], 3], [[3, 0], 3], [[-4], 3], [[0, 2], 2], [[1, -3], 2]])
 REFS['normalize_axis_s'] = Ref(
     _na_oracle,
     lambda v: 'k9_normalize_axis scalar=1 axis=%d ndim=%d' % (v[0], v[1]),
@@ -361,7 +431,9 @@ REFS['shape_concatenate'] = Ref(
     lambda v: _np_shape(lambda: np.concatenate((np.empty(v[0], dtype=np.int8), np.empty(v[1], dtype=np.int8)), axis=v[2]).shape),
     lambda v: 'k9_concatenate ashape=%s bshape=%s axis=%s' % (fmt(v[0]), fmt(v[1]), 'None' if v[2] is None else str(v[2])),
     _gen_cat,
-    fixed=[[[2, 3], [4, 3], 0], [[2, 3], [4, 3], None], [[2, 3], [4, 2], 0], [[2, 3, 2], [2, 1, 2], 1]])
+    fixed=[[[2, 3], [4, 3], 0], [[2, 3], [4, 3], None], [[2, 3, 2], [2, 1, 2], 1],
+           # refused: an extent differs off the joining axis
+           [[2, 3], [4, 2], 0], [[2, 3], [3, 3], 1], [[2, 3, 2], [2, 3, 3], 0]])
 
 
 def _pad_oracle(v):
@@ -376,8 +448,38 @@ REFS['shape_pad'] = Ref(
     _pad_oracle,
     lambda v: 'k9_pad shape=%s pad_width=%s' % (fmt(v[0]), fmt(v[1])),
     lambda rng: (lambda s: [s, [rng.randint(0, 2) for _ in range(2 * len(s) - (1 if rng.random() < 0.15 else 0))]])(rshape(rng, 1, 3, emax=4)),
-    fixed=[[[2, 3], [0, 2, 1, 0]], [[2, 3], [0, 2, 1]], [[4], [1, 1]]])
+    fixed=[[[2, 3], [0, 2, 1, 0]], [[4], [1, 1]], [[2, 3], [0, 2, 1]], [[2, 3], [0, 2, 1, 0, 1]], [[4], [1]]])
 
+
+def _matmul_oracle(v):
+    a, b = v
+    if len(a) < 2 or len(b) < 2:
+        return 'nothing'
+    return _np_shape(lambda: np.matmul(np.empty(a, dtype=np.int8), np.empty(b, dtype=np.int8)).shape)
+
+
+def _gen_matmul_shape(rng):
+    m, k, n = rng.randint(1, 4), rng.randint(1, 4), rng.randint(1, 4)
+    batch = rshape(rng, 0, 2, emax=3)
+    ba = _bpartner(rng, batch) if batch else []
+    a, b = ba + [m, k], batch + [k, n]
+    if rng.random() < 0.5:
+        a, b = batch + [m, k], ba + [k, n]
+    r = rng.random()
+    if r < 0.15:
+        b[-2] += 1                                  # contraction mismatch -> refused
+    elif r < 0.25 and len(a) > 2 and len(b) > 2:
+        a[0] = b[len(b) - len(a)] + 1 if len(b) >= len(a) else a[0]      # batch mismatch (unless it stretches)
+    return [a, b]
+
+
+REFS['shape_matmul'] = Ref(
+    _matmul_oracle,
+    lambda v: 'k9_matmul ashape=%s bshape=%s' % (fmt(v[0]), fmt(v[1])),
+    _gen_matmul_shape,
+    fixed=[[[2, 3], [3, 4]], [[2, 1, 3, 4], [5, 4, 2]], [[3, 2, 2], [2, 3]], [[1, 2, 3], [4, 3, 1]],
+           # refused: contraction extents differ, batch extents neither equal nor 1
+           [[2, 3], [2, 2]], [[2, 3, 4], [3, 4, 5]], [[4, 2, 3], [1, 2, 2]]])
 
 
 def _gen_slice1(rng, n):
@@ -461,10 +563,240 @@ REFS['v_sum'] = Ref(lambda v: _np_arr(lambda: np.sum(_arr(v[0], 0), axis=v[1])),
                     fixed=[[[2, 3], 1], [[2, 3, 2], 0], [[2, 3], -1]])
 
 
+# ---- round 4: more views / evaluations -------------------------------------------------------------------------------
+FILL = 9999
+
+
+def _cond(shape):
+    return (np.arange(int(np.prod(shape)), dtype=np.int64) % 2).reshape(shape)
+
+
+def _vreshape_oracle(v):
+    if any(d == 0 or d < -1 for d in v[1]):
+        return 'nothing'
+    return _np_arr(lambda: _arr(v[0], 0).reshape(v[1]))
+
+
+def _gen_vreshape_any(rng):
+    while True:
+        s, d = _gen_reshape(rng)
+        if len(s) <= 3:
+            return [s, d]
+
+
+VRESHAPE_FIXED = [[[2, 3], [3, 2]], [[2, 3, 2], [4, -1]], [[2, 3], [6]],
+                  # refused: target count a proper divisor / a multiple / coprime, two -1, zero / negative extent
+                  [[2, 3, 2], [2, 3]], [[2, 3], [4]], [[2, 3], [3, 4]], [[2, 3], [5]], [[2, 3], [-1, -1]], [[2, 3], [0, 6]], [[2, 3], [-2, 3]],
+                  [[12], [2, 3]], [[2, 3], [4, -1]]]
+REFS['v_reshape'] = Ref(_vreshape_oracle, REFS['v_reshape'].mreq, _gen_vreshape_any, fixed=VRESHAPE_FIXED)
+REFS['e_reshape'] = Ref(_vreshape_oracle, REFS['v_reshape'].mreq, _gen_vreshape_any, fixed=VRESHAPE_FIXED)
+
+
+def _gen_vadd_any(rng):
+    s = _vshape(rng)
+    t = _bpartner(rng, s, spoil=rng.random() < 0.25)
+    while len(t) > 3 or len(t) == 0:
+        t = _bpartner(rng, s)
+    return [s, t] if rng.random() < 0.5 else [t, s]
+
+
+VADD_FIXED = _both_orders([[[2, 3], [3]], [[2, 1, 2], [3, 1]], [[1, 3], [2, 1]], [[2, 3], [2, 1]],
+                           # refused
+                           [[2, 3], [2]], [[2, 3], [3, 3]], [[2, 1, 3], [2, 2]]])
+REFS['v_add'] = Ref(_add.oracle, _add.mreq, _gen_vadd_any, fixed=VADD_FIXED)
+REFS['e_add'] = Ref(_add.oracle, _add.mreq, _gen_vadd_any, fixed=VADD_FIXED)
+
+
+def _gen_vbto(rng):
+    b = rshape(rng, 1, 3, emax=3)
+    a = _bpartner(rng, b, spoil=rng.random() < 0.25)
+    if len(a) > len(b) and rng.random() < 0.7:
+        a = a[len(a) - len(b):]
+    if len(a) > 3:
+        a = a[-3:]
+    return [a, b]
+
+
+_bto = Ref(lambda v: _np_arr(lambda: np.broadcast_to(_arr(v[0], 0), v[1])),
+           lambda v: 'k9v_broadcast_to x=%s shape=%s' % (fmt(v[0]), fmt(v[1])),
+           _gen_vbto,
+           fixed=[[[3, 1], [2, 3, 2]], [[3], [2, 3]], [[1, 1], [2, 3]], [[2, 3], [2, 3]],
+                  # refused: extent mismatch, source rank above target rank, target 1 under a source extent > 1
+                  [[3, 2], [2, 3]], [[2, 3], [3]], [[3], [1]], [[2, 1, 3], [3, 3]]])
+REFS['v_broadcast_to'] = _bto
+
+
+def _barrays_oracle(v):
+    try:
+        x, y = np.broadcast_arrays(_arr(v[0], 0), _arr(v[1], 1))
+    except Exception:
+        return 'nothing'
+    return 'ok shape=%s data=%s|shape=%s data=%s' % (fmt(x.shape), fmt(x.ravel()), fmt(y.shape), fmt(y.ravel()))
+
+
+REFS['v_broadcast_arrays'] = Ref(_barrays_oracle,
+                                 lambda v: 'k9v_broadcast_arrays x=%s y=%s' % (fmt(v[0]), fmt(v[1])),
+                                 _gen_vadd_any,
+                                 fixed=_both_orders([[[2, 1], [3]], [[1, 3], [2, 1]], [[2, 3], [2, 3]],
+                                                     [[2, 3], [2]], [[2, 1, 3], [2, 2]]]))
+REFS['v_repeat'] = Ref(lambda v: _np_arr(lambda: np.repeat(_arr(v[0], 0), v[1], v[2])),
+                       lambda v: 'k9v_repeat x=%s repeats=%d axis=%s' % (fmt(v[0]), v[1], 'None' if v[2] is None else str(v[2])),
+                       lambda rng: (lambda s: [s, rng.randint(1, 3), _gen_axis(rng, len(s), neg=False)])(_vshape(rng)),
+                       fixed=[[[2, 3], 2, 1], [[2, 3], 2, None], [[2, 2, 2], 3, 0], [[2, 3], 2, 2], [[2, 3], 2, -3]])
+
+
+def _vpad_oracle(v):
+    s, pw = v
+    d = len(s)
+    if len(pw) != 2 * d:
+        return 'nothing'
+    return _np_arr(lambda: np.pad(_arr(s, 0), [(pw[k], pw[d + k]) for k in range(d)], constant_values=FILL))
+
+
+REFS['v_pad'] = Ref(_vpad_oracle,
+                    lambda v: 'k9v_pad x=%s pad_width=%s' % (fmt(v[0]), fmt(v[1])),
+                    lambda rng: (lambda s: [s, [rng.randint(0, 2) for _ in range(2 * len(s) - (1 if rng.random() < 0.2 else 0))]])(_vshape(rng)),
+                    fixed=[[[2, 3], [0, 2, 1, 0]], [[3], [1, 2]], [[2, 3], [0, 2, 1]], [[2, 3], [0, 2, 1, 0, 1]], [[3], [1]]])
+REFS['v_slice'] = Ref(lambda v: _np_arr(lambda: _arr(v[0], 0)[slice(*v[1]), slice(*v[2])]),
+                      lambda v: 'k9v_slice x=%s s0=%s s1=%s' % (fmt(v[0]), G.fmtv(v[1]), G.fmtv(v[2])),
+                      lambda rng: (lambda s: [s, _gen_slice1(rng, s[0]), _gen_slice1(rng, s[1])])(rshape(rng, 2, 2, emax=5, emin=2)),
+                      fixed=[[[2, 3], [0, 1], [None, None, 2]], [[3, 4], [1, 3], [0, 4, 3]], [[4, 3], [None, 2], [1, None]]])
+
+
+def _gen_vflip(rng):
+    s = _vshape(rng)
+    if rng.random() < 0.2:
+        return [s, None]
+    ax = rng.sample(range(len(s)), rng.randint(1, len(s)))
+    return [s, [a - len(s) if rng.random() < 0.3 else a for a in ax]]
+
+
+def _axis_arg(a):
+    return None if a is None else (tuple(a) if isinstance(a, (list, tuple)) else a)
+
+
+REFS['v_flip'] = Ref(lambda v: _np_arr(lambda: np.flip(_arr(v[0], 0), _axis_arg(v[1]))),
+                     lambda v: 'k9v_flip x=%s axis=%s' % (fmt(v[0]), _none_or(v[1])),
+                     _gen_vflip, fixed=[[[2, 3], [1]], [[2, 3], None], [[2, 3, 2], [0, -1]]])
+REFS['v_flip_s'] = Ref(lambda v: _np_arr(lambda: np.flip(_arr(v[0], 0), v[1])),
+                       lambda v: 'k9v_flip x=%s axis=%d' % (fmt(v[0]), v[1]),
+                       lambda rng: (lambda s: [s, _gen_axis(rng, len(s), allow_none=False)])(_vshape(rng)),
+                       fixed=[[[2, 3], 1], [[2, 3, 2], -3]])
+
+
+def _gen_vexpand(rng):
+    s = _vshape(rng, 2, 3)
+    k = rng.randint(1, 2)
+    n = len(s) + k
+    ax = sorted(rng.sample(range(n), k))
+    return [s, ax]
+
+
+REFS['v_expand_dims'] = Ref(lambda v: _np_arr(lambda: np.expand_dims(_arr(v[0], 0), tuple(v[1]))),
+                            lambda v: 'k9v_expand_dims x=%s axis=%s' % (fmt(v[0]), fmt(v[1])),
+                            _gen_vexpand, fixed=[[[2, 3], [1]], [[2, 3], [0, 2]], [[3], [1]],
+                                                 # refused: axis outside [-n, n) of the result rank n, axis listed twice
+                                                 [[2, 3], [3]], [[2, 3], [-4]], [[2, 3], [0, 0]]])
+REFS['v_squeeze'] = Ref(lambda v: _np_arr(lambda: np.squeeze(_arr(v[0], 0))),
+                        lambda v: 'k9v_squeeze x=%s' % fmt(v[0]),
+                        lambda rng: [[rng.choice([1, 1, 2, 3]) for _ in range(rng.randint(1, 3))] + [2]],
+                        fixed=[[[2, 1, 3]], [[1, 2, 1]], [[2, 3]]])
+
+
+def _gen_vcat(rng):
+    a = _vshape(rng)
+    if rng.random() < 0.2:
+        return [a, _vshape(rng), None]
+    ax = _gen_axis(rng, len(a), allow_none=False, neg=False)
+    b = list(a); b[ax] = rng.randint(1, 3)
+    return [a, b, ax]
+
+
+REFS['v_concatenate'] = Ref(lambda v: _np_arr(lambda: np.concatenate((_arr(v[0], 0), _arr(v[1], 1)), axis=v[2])),
+                            lambda v: 'k9v_concatenate x=%s y=%s axis=%s' % (fmt(v[0]), fmt(v[1]), 'None' if v[2] is None else str(v[2])),
+                            _gen_vcat, fixed=[[[2, 3], [1, 3], 0], [[2, 3], [2], None], [[2, 3], [2, 1], 1],
+                                              # refused: an extent differs off the joining axis, axis out of range
+                                              [[2, 3], [2, 2], 0], [[2, 3], [2, 3], 2],
+                                              # (an extent along the axis above the extent of the last axis: known finding)
+                                              [[3, 2], [2, 2], 0], [[3, 3, 2], [3, 3, 2], 0]])
+
+
+def _gen_vwhere(rng):
+    s = _vshape(rng)
+    def part(spoil=False):
+        t = _bpartner(rng, s, spoil=spoil)
+        while len(t) > 3 or len(t) == 0:
+            t = _bpartner(rng, s)
+        return t
+    l = [s, part(), part(spoil=rng.random() < 0.25)]
+    rng.shuffle(l)
+    return l
+
+
+_where = Ref(lambda v: _np_arr(lambda: np.where(_cond(v[0]) != 0, _arr(v[1], 1), _arr(v[2], 2))),
+             lambda v: 'k9v_where c=%s x=%s y=%s' % (fmt(v[0]), fmt(v[1]), fmt(v[2])),
+             _gen_vwhere,
+             fixed=[[[2, 3], [3], [2, 1]], [[3], [2, 1], [2, 3]], [[2, 1], [2, 3], [1, 3]], [[2, 3], [2, 3], [2, 3]],
+                    # refused: one operand does not broadcast with the others (each position)
+                    [[2, 3], [2], [2, 3]], [[2], [2, 3], [3]], [[2, 3], [3], [2, 2]]])
+REFS['v_where'] = _where
+
+
+def _gen_vmatmul(rng):
+    m, k, n = rng.randint(1, 3), rng.randint(1, 3), rng.randint(1, 3)
+    batch = rshape(rng, 0, 1, emax=2)
+    ba = [1] * len(batch) if rng.random() < 0.3 else list(batch)
+    if rng.random() < 0.3:
+        ba = []
+    a, b = ba + [m, k], batch + [k, n]
+    return [a, b] if rng.random() < 0.5 else [batch + [m, k], ba + [k, n]]
+
+
+_matmul = Ref(lambda v: _np_arr(lambda: np.matmul(_arr(v[0], 0), _arr(v[1], 1))),
+              lambda v: 'k9v_matmul x=%s y=%s' % (fmt(v[0]), fmt(v[1])),
+              _gen_vmatmul, fixed=[[[2, 3], [3, 2]], [[2, 2, 3], [3, 1]], [[1, 2], [2, 2, 2]],
+                                   # refused: contraction extents differ, batch extents neither equal nor 1
+                                   [[2, 3], [2, 2]], [[2, 2, 3], [3, 3, 1]]])
+REFS['v_matmul'] = _matmul
+REFS['e_matmul'] = Ref(_matmul.oracle, _matmul.mreq, _matmul.gen, fixed=_matmul.fixed)
+
+
+def _gen_vsumk(rng):
+    s = rshape(rng, 2, 3, emax=3)
+    if rng.random() < 0.15:
+        return [s, None, rng.random() < 0.5]
+    ax = rng.sample(range(len(s)), rng.randint(1, len(s)))
+    return [s, [a - len(s) if rng.random() < 0.3 else a for a in ax], rng.random() < 0.5]
+
+
+_sumk = Ref(lambda v: _np_arr(lambda: np.sum(_arr(v[0], 0), axis=_axis_arg(v[1]), keepdims=bool(v[2]))),
+            lambda v: 'k9v_sum_k x=%s axis=%s keepdims=%d' % (fmt(v[0]), _none_or(v[1]), int(v[2])),
+            _gen_vsumk,
+            fixed=[[[2, 3], [1], True], [[2, 3, 2], [0, 2], False], [[2, 3], None, False], [[2, 3, 2], [-1], True], [[2, 3], None, True]])
+REFS['v_sum_k'] = _sumk
+REFS['e_sum_k'] = Ref(_sumk.oracle, _sumk.mreq, _sumk.gen, fixed=_sumk.fixed)
+REFS['v_sum_ks'] = Ref(lambda v: _np_arr(lambda: np.sum(_arr(v[0], 0), axis=v[1], keepdims=bool(v[2]))),
+                       lambda v: 'k9v_sum_k x=%s axis=%d keepdims=%d' % (fmt(v[0]), v[1], int(v[2])),
+                       lambda rng: (lambda s: [s, _gen_axis(rng, len(s), allow_none=False), rng.random() < 0.5])(rshape(rng, 2, 3, emax=3)),
+                       fixed=[[[2, 3], 1, True], [[2, 3], -2, False], [[2, 3, 2], 1, False]])
+
+
+def _gen_vtake(rng):
+    s = _vshape(rng)
+    ax = _gen_axis(rng, len(s), allow_none=False)
+    return [s, [rng.randrange(s[ax]) for _ in range(rng.randint(1, 3))], ax]
+
+
+REFS['v_take'] = Ref(lambda v: _np_arr(lambda: np.take(_arr(v[0], 0), v[1], axis=v[2])),
+                     lambda v: 'k9v_take x=%s indices=%s axis=%d' % (fmt(v[0]), fmt(v[1]), v[2]),
+                     _gen_vtake, fixed=[[[2, 3], [2, 0], 1], [[3, 2], [1, 1, 0], 0], [[2, 3], [1], -1]])
+
+
 # ------------------------------------------------------------------------------------------------
 # known findings: predicates over the INPUT CLASS of a case (operation, values, kinds, clipped bounds)
 # ------------------------------------------------------------------------------------------------
-FIXED_LEN_KINDS = {'ct', 'cl', 'a', 'raw', 'tup', 'f', 'utla', 'ba'}
+CL = ('cl', 'clt')
+FIXED_LEN_KINDS = {'ct', 'cl', 'clt', 'a', 'raw', 'tup', 'f', 'utla', 'ba'}
 BOUNDED_LEN_KINDS = {'sv', 'h', 'bsv'}
 
 
@@ -479,7 +811,7 @@ def parse_req(req):
         t = parts[an]
         if t == 'None':
             v = None
-        elif vt in ('L', 'I', 'A', 'S'):
+        elif vt in ('L', 'I', 'A', 'C', 'S'):
             v = [] if t == '[]' else [None if x == 'N' else int(x) for x in t.split(',')]
         else:
             v = int(t)
@@ -493,7 +825,7 @@ def clipped_bounds(r, an):
     v = r['args'][an]
     signed = r['argtype'][an] == 'I'
     base = r['salt'] + 5 * r['argpos'][an]
-    return [G.cl_bounds(x, base + j, signed) for j, x in enumerate(v)]
+    return [G.cl_bounds(x, base + j, signed, r['argkind'][an] == 'clt') for j, x in enumerate(v)]
 
 
 def kf_remove_dims_runtime_keepdims(c):
@@ -512,7 +844,7 @@ def kf_normalize_axis_clipped_negative(c):
     """normalize_axis with a tuple of clipped integers holding a negative or out-of-range axis: the element type is
     taken as unsigned, the value passes through un-normalised and is never refused"""
     r = parse_req(c.req)
-    if r['op'] != 'normalize_axis' or r['argkind']['axis'] != 'cl':
+    if r['op'] != 'normalize_axis' or r['argkind']['axis'] not in CL:
         return False
     nd = r['args']['ndim']
     return any(a < 0 or a >= nd for a in r['args']['axis'])
@@ -523,18 +855,20 @@ def kf_reshape_clipped_bounds(c):
     BOUNDS of the clipped integers: a `-1` slot is clamped to its own bound, and a valid request whose bounds do not
     multiply to the same element count yields a failure type"""
     r = parse_req(c.req)
-    if r['op'] not in ('shape_reshape', 'v_reshape'):
+    if r['op'] not in ('shape_reshape', 'v_reshape', 'e_reshape'):
         return False
-    if r['argkind']['newshape'] == 'cl' and any(d == -1 for d in r['args']['newshape']):
+    if r['argkind']['newshape'] in CL and any(d == -1 for d in r['args']['newshape']):
         return True
     lists = ('shape', 'newshape') if r['op'] == 'shape_reshape' else ('newshape',)
-    if not any(r['argkind'][an] == 'cl' for an in lists):
+    if not any(r['argkind'][an] in CL for an in lists):
         return False
     # bounds not tight somewhere
     slack = False
     for an in lists:
-        if r['argkind'][an] == 'cl':
-            slack |= any(hi != v for (lo, hi), v in zip(clipped_bounds(r, an), r['args'][an]))
+        if r['argkind'][an] in CL:
+            # upper bound above the value, or a range reaching below 0 around a non-negative value (the resolver reads
+            # `min < 0` as "this slot is the -1 placeholder")
+            slack |= any(hi != v or (lo < 0 <= v) for (lo, hi), v in zip(clipped_bounds(r, an), r['args'][an]))
     return slack
 
 
@@ -545,52 +879,114 @@ def kf_broadcast_clipped_one_with_slack(c):
     if r['op'] not in ('broadcast_shape', 'broadcast_shape3'):
         return False
     for an, k in r['argkind'].items():
-        if k == 'cl' and any(v == 1 and hi > 1 for (lo, hi), v in zip(clipped_bounds(r, an), r['args'][an])):
-            return True
-    return False
-
-
-def kf_colmajor_clipped_shape(c):
-    """a column-major ndarray_t whose shape is a tuple of clipped integers with >= 2 axes: the offset functor reverses the
-    shape INTO the same tuple type, so extents are clamped to the bounds of the wrong axis and distinct indices alias"""
-    r = parse_req(c.req)
-    for an, k in r['argkind'].items():
-        if r['argtype'][an] == 'A' and k.startswith('ls_') and k.endswith('_col') and len(r['args'][an]) >= 2:
+        if k in CL and any(v == 1 and hi > 1 for (lo, hi), v in zip(clipped_bounds(r, an), r['args'][an])):
             return True
     return False
 
 
 def kf_eval_tile_fixed_buffer(c):
-    """eval(view::tile(x, reps)) where x has a fixed or bounded (hybrid) buffer but a non-constant shape and the tiling
-    enlarges the array: the result container inferred for the evaluation is too small / of the wrong rank"""
+    """eval(view::tile(x, reps)) where the tiling enlarges the array and the result container inferred for the evaluation
+    is too small / of the wrong rank (measured over all 35 x 8 kind pairs): (a) x with a hybrid or dynamic SHAPE over a
+    fixed or hybrid BUFFER, any reps kind; (b) hybrid shape over a dynamic buffer when the rank grows; (c) x with a
+    fixed-rank or clipped shape (except fixed-rank over a dynamic buffer) when reps has a compile-time length (constant /
+    clipped / array / raw / tuple) and the rank does not grow: the result keeps the extents / bounds of x"""
     r = parse_req(c.req)
     if r['op'] != 'e_tile':
         return False
     k = r['argkind']['x']
     k = k[:-4] if k.endswith('_col') else k
-    grow = any(x > 1 for x in r['args']['reps']) or len(r['args']['reps']) > len(r['args']['x'])
-    return grow and k in ('fs_fb', 'fs_hb', 'hs_fb', 'hs_hb', 'hs_db', 'ds_fb', 'ds_hb', 'ls_fb', 'ls_hb')
+    reps, x = r['args']['reps'], r['args']['x']
+    grow = any(v > 1 for v in reps) or len(reps) > len(x)
+    if not grow:
+        return False
+    if k in ('hs_fb', 'hs_hb', 'ds_fb', 'ds_hb'):
+        return True
+    if k == 'hs_db':
+        return len(reps) > len(x)
+    if k in ('fs_fb', 'fs_hb', 'ls_fb', 'ls_hb', 'ls_db'):
+        return len(reps) <= len(x) and r['argkind']['reps'] not in ('sv', 'v')
+    return False
 
 
 def kf_repeat_clipped_repeats(c):
     """shape_repeat with a constant shape, a constant axis and a tuple of CLIPPED repeats whose bounds are not tight: the
     all-compile-time branch treats the clipped repeats as constants equal to their bounds"""
     r = parse_req(c.req)
-    if r['op'] != 'shape_repeat_l' or r['argkind']['repeats'] != 'cl':
+    if r['op'] != 'shape_repeat_l' or r['argkind']['repeats'] not in CL:
         return False
     if r['argkind']['shape'] != 'ct' or r['argkind']['axis'] not in ('ct', 'none'):
         return False
     return any(hi != v for (lo, hi), v in zip(clipped_bounds(r, 'repeats'), r['args']['repeats']))
 
 
+def array_shape_class(kind):
+    """how much of the shape of an array kind is known at compile time"""
+    k = kind[:-4] if kind.endswith('_col') else kind
+    if k in ('a', 'raw', 'f') or k.startswith('cs_'):
+        return 'constant'
+    if k.startswith('ls_'):
+        return 'clipped'
+    if k == 'h' or k.startswith('hs_'):
+        return 'bounded'
+    if k.startswith('fs_'):
+        return 'fixed-rank'
+    return 'dynamic'
+
+
+def kf_take_clipped_indices(c):
+    """view::take with a constant / clipped source shape and a tuple of CLIPPED index entries, where an extent
+    of the result exceeds the upper bound of the last index entry: the result shape takes its element type from the index
+    entries and clamps"""
+    r = parse_req(c.req)
+    if r['op'] != 'v_take' or r['argkind']['indices'] not in CL:
+        return False
+    if array_shape_class(r['argkind']['x']) not in ('constant', 'clipped'):
+        return False
+    s = list(r['args']['x'])
+    s[r['args']['axis'] % len(s)] = len(r['args']['indices'])
+    bound = clipped_bounds(r, 'indices')[-1][1]
+    return any(e > bound for e in s)
+
+
+def kf_repeat_constant_axis_invalid(c):
+    """repeat with a compile-time-constant axis and a refused request (axis out of range / wrong number of counts): only
+    a run-time axis is validated"""
+    r = parse_req(c.req)
+    if r['op'] not in ('shape_repeat', 'shape_repeat_l', 'v_repeat') or r['argkind']['axis'] != 'ct':
+        return False
+    shape = r['args']['shape' if 'shape' in r['args'] else 'x']
+    ax = r['args']['axis']
+    if ax is None:
+        return False
+    if not (-len(shape) <= ax < len(shape)):
+        return True
+    reps = r['args']['repeats']
+    return isinstance(reps, list) and len(reps) != shape[ax]
+
+
+def kf_concatenate_clipped_operand(c):
+    """view::concatenate along an axis where an operand with a clipped shape has an extent above the bound of its last axis"""
+    r = parse_req(c.req)
+    if r['op'] != 'v_concatenate' or r['args']['axis'] is None:
+        return False
+    for an in ('x', 'y'):
+        s_ = r['args'][an]
+        if array_shape_class(r['argkind'][an]) == 'clipped':
+            ax = r['args']['axis']
+            if -len(s_) <= ax < len(s_) and s_[ax] > s_[-1]:
+                return True
+    return False
+
+
 KNOWN_PREDICATES = {
+    'concatenate_clipped_operand': kf_concatenate_clipped_operand,
+    'repeat_constant_axis_invalid': kf_repeat_constant_axis_invalid,
+    'take_clipped_indices': kf_take_clipped_indices,
     'repeat_clipped_repeats': kf_repeat_clipped_repeats,
-    'colmajor_clipped_shape': kf_colmajor_clipped_shape,
     'eval_tile_fixed_buffer': kf_eval_tile_fixed_buffer,
     'remove_dims_runtime_keepdims': kf_remove_dims_runtime_keepdims,
     'normalize_axis_clipped_negative': kf_normalize_axis_clipped_negative,
     'reshape_clipped_bounds': kf_reshape_clipped_bounds,
-    'broadcast_clipped_one_with_slack': kf_broadcast_clipped_one_with_slack,
 }
 
 
@@ -611,7 +1007,7 @@ def requests(tier, seed):
         rng = random.Random(1234)      # the quick request sample is fixed
         for op, ref in REFS.items():
             view = G.OPS[op].level == 'view'
-            for v in (ref.fixed[:1] if view else ref.fixed):
+            for v in (quick_view_requests(op) if view else ref.fixed):
                 out.append((op, v))
             if not view:
                 out.append((op, ref.gen(rng)))
@@ -621,7 +1017,7 @@ def requests(tier, seed):
             view = G.OPS[op].level == 'view'
             for v in ref.fixed:
                 out.append((op, v))
-            for _ in range(6 if view else 22):
+            for _ in range(3 if view else 10):
                 out.append((op, ref.gen(rng)))
     seen = set(); res = []
     for op, v in out:
@@ -629,6 +1025,30 @@ def requests(tier, seed):
         if k not in seen:
             seen.add(k); res.append((op, v, len(res)))
     return res
+
+
+QUICK_VIEW_EXTRA = {
+    # beyond "first accepted + first refused request": the count classes of reshape, operand order of the binary operations
+    'v_reshape': [[[2, 3], [3, 4]], [[2, 3], [-1, -1]]],
+    'v_add': [[[3], [2, 3]], [[1, 3], [2, 1]], [[2, 1], [1, 3]], [[2], [2, 3]]],
+    'v_broadcast_arrays': [[[3], [2, 1]]],
+    'v_where': [[[3], [2, 1], [2, 3]]],
+    'v_sum_k': [[[2, 3], None, False]],
+    'v_concatenate': [[[3, 2], [2, 2], 0]],
+}
+
+
+def quick_view_requests(op):
+    """fixed quick sample of a view / evaluation: the first accepted request, the first refused one (when the operation
+    can refuse), and the extras above"""
+    ref = REFS[op]
+    ok = [v for v in ref.fixed if ref.oracle(v) != 'nothing']
+    bad = [v for v in ref.fixed if ref.oracle(v) == 'nothing']
+    out = ok[:1] + bad[:1]
+    for v in QUICK_VIEW_EXTRA.get(op, []):
+        if v not in out:
+            out.append(v)
+    return out
 
 
 def supported(pins, build, op, refusal=False):
@@ -649,24 +1069,31 @@ def assignments(op, vals, build, rng, tier, pins, todo_sigs):
     width = max(len(p) for p in per)
     for j in range(width):
         chosen.append(tuple(p[j % len(p)] for p in per))
+    refusal = REFS[op].oracle(vals) == 'nothing'
     if tier == 'quick' and o.level == 'view':
         # compile-bound: the full array-kind diagonal of an op runs in ONE build (rotating), every 4th kind in the others
+        # (a refused request: none in the others); the shape-class x second-argument-kind pairs in ONE other build
         bi = sorted(G.BUILDS).index(build)
         oi = sorted(G.OPS).index(op)
         if (oi % len(G.BUILDS)) != bi:
-            chosen = chosen[(oi + bi) % 4::4]
+            chosen = [] if refusal else chosen[(oi + bi) % 4::4]
+        if ((oi + 2) % len(G.BUILDS)) == bi:
+            chosen += G.view_pairs(op, per)
     if tier != 'quick' and o.level == 'view':
-        # the array-kind diagonal once per op and build; later requests only get mixed draws + the signature sweep below
-        if todo_sigs.get(('diag-done', build, op)):
+        # the array-kind diagonal and the class pairs once per op, build and verdict (accepted / refused); later requests
+        # only get mixed draws + the signature sweep below
+        if todo_sigs.get(('diag-done', build, op, refusal)):
             chosen = []
-        todo_sigs[('diag-done', build, op)] = True
-    nmix = (3 if o.level == 'view' else 6) if tier == 'quick' else (5 if o.level == 'view' else 10)
+        else:
+            chosen += G.view_pairs(op, per)
+        todo_sigs[('diag-done', build, op, refusal)] = True
+    nmix = (3 if o.level == 'view' else 6) if tier == 'quick' else (3 if o.level == 'view' else 10)
     if o.level == 'index':
         # the type-level branches key on the CLASS of each argument (constant / clipped / fixed / bounded / dynamic):
         # every pair of classes for the first two list arguments, the remaining arguments cycling
         lpos = [j for j, ((an, vt), v) in enumerate(zip(o.args, vals)) if vt in ('L', 'I') and v is not None][:2]
         if len(lpos) == 2:
-            cls = ['ct', 'cl', 'a', 'sv', 'v']
+            cls = ['ct', 'cl', 'clt', 'a', 'sv', 'v']
             t = 0
             for ka in cls:
                 for kb in cls:
@@ -737,7 +1164,7 @@ def plan(tier):
         chunk, w, n = [], 0, 0
         for c in cases + [None]:
             flush = c is None or c == 'flush'
-            cw = 0 if flush else (VIEW_WEIGHT if G.OPS[c.op].level == 'view' else 1)
+            cw = 0 if flush else OP_WEIGHT.get(c.op, VIEW_WEIGHT if G.OPS[c.op].level == 'view' else 1)
             if flush or (chunk and w + cw > CASES_PER_TU):
                 if chunk:
                     tus['k9_%s_%s_%02d' % (tier[0], build, n)] = (build, chunk)
@@ -766,11 +1193,10 @@ def _load_ce():
     return {}
 
 
-def harness_specs(tier):
-    """generate the TUs, build them with a bounded number of jobs (the runner then finds them cached).  A TU that does
-    not compile is bisected (G.probe): the offending cases become stubs answering `compile-error`, so that the other
-    cases still run and the offending ones are judged like any other answer."""
-    reqs, tus = plan(tier)
+def build_tus(tus):
+    """generate and build the TUs {name: (build, [KCase])} with a bounded number of jobs (the runner then finds them
+    cached).  A TU that does not compile is bisected (G.probe): the offending cases become stubs answering `compile-error`,
+    so that the other cases still run and the offending ones are judged like any other answer.  Returns the harness specs."""
     os.makedirs(G.GEN_DIR, exist_ok=True)
     runner.include_tree_hash()
     ce = _load_ce()           # {build: {case key: error}} for this include tree
@@ -812,17 +1238,27 @@ def harness_specs(tier):
     return specs
 
 
+def harness_specs(tier):
+    reqs, tus = plan(tier)
+    return build_tus(tus)
+
+
+def make_case(c, build, name):
+    """the runner Case of one generated kind case"""
+    ref = REFS[c.op]
+    exp = ref.oracle(c.vals)
+    nt = exp == 'nothing' or any(isinstance(v, (list, tuple)) and len(v) >= 2 for v in c.vals)
+    tags = ['op=' + c.op, 'build=' + build, 'mode=' + c.mode] + ['kind=' + k for k in sorted(set(c.kinds))] + \
+           (['expect-nothing'] if exp == 'nothing' else [])
+    return Case('k9 id=%s build=%s %s' % (c.key, build, c.text()), name, dom=True, oracle=exp, mreq=ref.mreq(c.vals),
+                nontrivial=nt, tags=tags, cmp=same)
+
+
 def gen(tier, rng):
     reqs, tus = plan(tier)
     for name, (build, cases) in tus.items():
         for c in cases:
-            ref = REFS[c.op]
-            exp = ref.oracle(c.vals)
-            nt = exp == 'nothing' or any(isinstance(v, (list, tuple)) and len(v) >= 2 for v in c.vals)
-            tags = ['op=' + c.op, 'build=' + build, 'mode=' + c.mode] + ['kind=' + k for k in sorted(set(c.kinds))] + \
-                   (['expect-nothing'] if exp == 'nothing' else [])
-            yield Case('k9 id=%s build=%s %s' % (c.key, build, c.text()), name, dom=True, oracle=exp, mreq=ref.mreq(c.vals),
-                       nontrivial=nt, tags=tags, cmp=same)
+            yield make_case(c, build, name)
 
 
 def post(cases, tier):
@@ -896,3 +1332,184 @@ def coverage_extra(cases, tier):
         'builds': sorted(G.BUILDS),
         'samples': samples,
     }
+
+
+# ------------------------------------------------------------------------------------------------
+# slices of the kind matrix for the properties that own the operations
+# ------------------------------------------------------------------------------------------------
+# A defect seeded into a kind-specific `if constexpr` branch of an operation is invisible to the harness of the property
+# owning that operation when that harness feeds dynamic containers only.  `slice_for` hands such a property the part of the
+# kind matrix that concerns ITS operations, small enough to ride along in its own check.
+OPS_BY_PROPERTY = {
+    'C01': ['compute_strides', 'product', 'compute_offset', 'compute_indices'],
+    'C03': ['shape_reshape', 'shape_transpose', 'v_transpose', 'e_transpose', 'v_reshape', 'e_reshape', 'v_flip', 'v_flip_s',
+            'v_expand_dims', 'v_squeeze'],
+    'C04': ['shape_tile', 'shape_repeat', 'shape_repeat_l', 'shape_concatenate', 'shape_pad', 'v_tile', 'e_tile', 'v_repeat', 'v_pad',
+            'v_concatenate', 'v_take', 'v_where'],
+    'C05': ['shape_slice', 'v_slice'],
+    'C06': ['broadcast_shape', 'broadcast_shape3', 'shape_broadcast_to', 'v_broadcast_to', 'v_broadcast_arrays'],
+    'C07': ['v_add', 'e_add', 'v_where'],
+    'C08': ['remove_dims', 'remove_dims_s', 'normalize_axis', 'normalize_axis_s', 'v_sum', 'v_sum_k', 'v_sum_ks', 'e_sum_k'],
+    # the operations that CAN refuse (use slice_for(..., refused_only=True): only their refused requests)
+    'C15': ['shape_reshape', 'broadcast_shape', 'broadcast_shape3', 'shape_broadcast_to', 'normalize_axis', 'normalize_axis_s',
+            'shape_concatenate', 'shape_pad', 'shape_matmul', 'v_reshape', 'e_reshape', 'v_broadcast_to', 'v_broadcast_arrays', 'v_add',
+            'v_where', 'v_pad'],
+    'C16': ['shape_matmul', 'v_matmul', 'e_matmul'],
+}
+SLICE_BUILD = 'stl-gcc'
+# compile budget of one slice in units of one index-level case (~0.035 s with g++ -O1): quick ~55 s cold, one TU
+SLICE_BUDGET = {'quick': 1600, 'thorough': 6400}
+SLICE_CAP = {'quick': 150, 'thorough': 600}           # cases per operation
+
+
+def _slice_cost(op):
+    return 1 if G.OPS[op].level == 'index' else 3 * OP_WEIGHT.get(op, VIEW_WEIGHT)
+
+
+def _slice_candidates(op, vals, salt, pins):
+    """kind assignments of one request in priority order: the class pairs (constant / clipped / clipped-tight / array /
+    static_vector / vector for the first two list arguments; for views the shape class of the array x every kind of the
+    second argument) first, then the diagonal; constexpr twins directly after their run-time case"""
+    o = G.OPS[op]
+    refusal = REFS[op].oracle(vals) == 'nothing'
+    sup = supported(pins, SLICE_BUILD, op, refusal=refusal)
+    per = G.kinds_per_arg(op, vals, SLICE_BUILD)
+    chosen = []
+    if o.level == 'index':
+        lpos = [j for j, ((an, vt), v) in enumerate(zip(o.args, vals)) if vt in ('L', 'I') and v is not None][:2]
+        if len(lpos) == 2:
+            cls = ['ct', 'cl', 'clt', 'a', 'sv', 'v']
+            t = 0
+            pairs = []
+            for ka in cls:
+                for kb in cls:
+                    if ka in per[lpos[0]] and kb in per[lpos[1]]:
+                        k = [p[t % len(p)] for p in per]
+                        k[lpos[0]] = ka; k[lpos[1]] = kb
+                        pairs.append(tuple(k)); t += 1
+            # compile-time knowledge on ONE side first (a constant argument against a run-time one: array, vector, clipped,
+            # static_vector, tight clipped), then clipped against run-time, then the rest
+            rank = {'a': 0, 'v': 1, 'cl': 2, 'sv': 3, 'clt': 4}
+
+            def prio(k):
+                ka, kb = k[lpos[0]], k[lpos[1]]
+                if (ka == 'ct') != (kb == 'ct'):
+                    return (0, rank[kb if ka == 'ct' else ka], ka != 'ct')
+                if ka != kb and 'ct' not in (ka, kb):
+                    return (1, 0, 0)
+                return (2, 0, 0)
+            chosen += sorted(pairs, key=prio)
+    else:
+        # the second argument in its constant kind against every shape class of the array first (run-time shapes first),
+        # then array / vector / clipped ..., i.e. the pairs of G.view_pairs read column by column
+        pairs = G.view_pairs(op, per)
+        arank = {k: j for j, k in enumerate(['fs_db', 'ds_db', 'a', 'hs_hb', 'cs_hb', 'ls_fb'])}
+        brank = {k: j for j, k in enumerate(['ct', 'a', 'v', 'cl', 'fs_hb', 'cs_fb', 'd', 'sv', 'clt', 'raw', 'tup', 'rt', 'rtz'])}
+        chosen += sorted(pairs, key=lambda k: (brank.get(k[1], 50), arank.get(k[0], 50)))
+    chosen += G.diagonals(per, 1)
+    out, seen = [], set()
+    for k in chosen:
+        for mode in ('rt', 'cx'):
+            if mode == 'cx' and not G.cx_ok(op, vals, k):
+                continue
+            if G.sig(op, k, mode) in sup and (k, mode) not in seen:
+                seen.add((k, mode))
+                out.append(G.KCase(op, vals, k, mode, salt=salt))
+    return out
+
+
+def slice_for(ops, tier, rng, refused_only=False, prefix='k9s'):
+    """The slice of the C09 kind matrix for the operations `ops` (names as in OPS_BY_PROPERTY), for use inside the check of
+    the property that owns them.  Returns `(harness_specs, cases)`:
+
+    * `harness_specs`: what `mod.harness_specs(tier)` returns for the generated TU(s) of the slice (ONE TU, build stl-gcc);
+      the TU is generated and compiled here (a case that does not compile against $VERIF_REPO is stubbed and answers
+      `compile-error`, exactly as in C09 proper), so the runner finds it cached.  The TU name is
+      `<prefix>_<q|t>_<digest of the operation names>`: the same slice requested by two properties is built once.
+    * `cases`: runner `Case` objects in the request format of C09 (`k9 id=.. build=.. op=.. <args> kinds=.. mode=.. salt=..`),
+      `oracle` = the single reference answer (NumPy), `mreq` = the reference op of the Lean driver (`k9_*` / `k9v_*`,
+      answered by Driver.C09 whatever property runs the check), `cmp` = `same` (failure type / compile-time refusal =
+      `nothing`), `dom=True`.
+
+    Content: per operation the fixed requests of C09 (accepted AND refused ones; `refused_only=True` keeps the refused ones,
+    for C15) — in thorough also 10 requests drawn from `rng` — under the kind assignments of `_slice_candidates`
+    (mixed constant / clipped / run-time pairs first, then every kind once), round-robin over the requests, capped at
+    SLICE_CAP[tier] cases per operation and at a total compile budget of SLICE_BUDGET[tier] (~55 s cold in quick; view cases
+    cost 9-30 units, so a slice with many views gets ~10-20 cases per view).  Only pinned-supported signatures are used.
+
+    An open known finding of C09 can show up in a slice: apply `slice_known(case)` before reporting a disagreement."""
+    ops = [op for op in ops if op in REFS]
+    pins = G.load_pins()
+    budget = SLICE_BUDGET.get(tier, SLICE_BUDGET['quick'])
+    cap = SLICE_CAP.get(tier, SLICE_CAP['quick'])
+    per_op = {}
+    for op in ops:
+        ref = REFS[op]
+        view = G.OPS[op].level == 'view'
+        reqs = list(ref.fixed) if (tier != 'quick' or not view) else quick_view_requests(op)
+        if tier != 'quick':
+            reqs += [ref.gen(rng) for _ in range(10)]
+        ok = [v for v in reqs if ref.oracle(v) != 'nothing']
+        bad = [v for v in reqs if ref.oracle(v) == 'nothing']
+        if op in ('shape_reshape', 'v_reshape', 'e_reshape') and not view:
+            # one refused request per class before the second of any class
+            cl = list(RESHAPE_REFUSALS.values())
+            bad = [l[j] for j in range(max(len(l) for l in cl)) for l in cl if j < len(l)] + [v for v in bad if not any(v in l for l in cl)]
+        if tier == 'quick':
+            ok, bad = ok[:3], bad[:(12 if refused_only else 7)]
+        order = []
+        if refused_only:
+            order = bad
+        else:
+            for j in range(max(len(ok), len(bad))):       # accepted and refused requests alternate
+                order += ok[j:j + 1] + bad[j:j + 1]
+        lists = [_slice_candidates(op, v, j % 6, pins) for j, v in enumerate(order)]
+        inter = []
+        for i in range(max([len(l) for l in lists] + [0])):
+            for l in lists:
+                if i < len(l):
+                    inter.append(l[i])
+        per_op[op] = inter[:cap]
+    # share the compile budget: every operation gets an equal share, what an operation cannot use goes to the others
+    want = {op: len(per_op[op]) for op in ops}
+    give = {op: 0 for op in ops}
+    left = budget
+    active = [op for op in ops if want[op] > 0]
+    while active and left > 0:
+        share = left / len(active)
+        progressed = False
+        for op in list(active):
+            n = min(want[op] - give[op], int(share // _slice_cost(op)))
+            if n > 0:
+                give[op] += n; left -= n * _slice_cost(op); progressed = True
+            if give[op] >= want[op]:
+                active.remove(op)
+        if not progressed:
+            break
+    chosen = [c for op in ops for c in per_op[op][:max(give[op], min(want[op], 4))]]
+    if not chosen:
+        return [], []
+    digest = hashlib.sha256((','.join(sorted(ops)) + ('|refused' if refused_only else '')).encode()).hexdigest()[:8]
+    name = '%s_%s_%s' % (prefix, tier[0], digest)
+    specs = build_tus({name: (SLICE_BUILD, chosen)})
+    return specs, [make_case(c, SLICE_BUILD, name) for c in chosen]
+
+
+def slice_known(case):
+    """id of the open C09 known finding whose input-class predicate contains the case (a slice case in the hands of another
+    property), or None.  The entries are read from known/C09.json (falling back to known_findings.json)."""
+    p = os.path.join(runner.ROOT, 'known', 'C09.json')
+    try:
+        entries = json.load(open(p))
+    except Exception:
+        entries = runner.load_known(ID)
+    for e in entries:
+        if e.get('status', 'open') != 'open':
+            continue
+        f = KNOWN_PREDICATES.get(e.get('predicate'))
+        try:
+            if f is not None and f(case):
+                return e['id']
+        except Exception:
+            continue
+    return None
